@@ -552,20 +552,20 @@ func main() {
 		}
 	}
 	var (
-		totalExec, totalStuck     int
-		totalSteps, totalNodes    int64
-		totalStates               int64
-		exhaustive                = true
-		perJob                    []map[string]any
-		samples                   []any
-		violBySig                 = map[string]violation{}
-		violJob                   = map[string]job{}
-		violCounts                = map[string]int{}
-		nontrivial                int
-		obsAll                    = map[uint64]struct{}{}
-		counters                  = map[string]int{}
-		vacuity                   []string
-		engines                   = map[string]bool{}
+		totalExec, totalStuck  int
+		totalSteps, totalNodes int64
+		totalStates            int64
+		exhaustive             = true
+		perJob                 []map[string]any
+		samples                []any
+		violBySig              = map[string]violation{}
+		violJob                = map[string]job{}
+		violCounts             = map[string]int{}
+		nontrivial             int
+		obsAll                 = map[uint64]struct{}{}
+		counters               = map[string]int{}
+		vacuity                []string
+		engines                = map[string]bool{}
 	)
 	for ji, rs := range results {
 		j := jobs[ji]
